@@ -231,7 +231,9 @@ def read_import(sc):
             raise AssertionError("imported part with several divisions %r" % (dvals,))
         d = dvals[0]
         voices = {}
+        spells = set()
         for n in p.iter_all(S.Note, include_subclasses=True):
+            spells.add((n.step, n.alter or 0))
             if n.tie_prev is not None:
                 continue
             dur = 0
@@ -248,7 +250,7 @@ def read_import(sc):
         ksl = sorted((Fraction(int(o.start.t), d), int(o.fifths), "minor" if o.mode == "minor" else "major")
                      for o in p.iter_all(S.KeySignature))
         tempos = [(Fraction(int(o.start.t), d), o.bpm, o.unit) for o in p.iter_all(S.Tempo)]
-        return dict(d=d, voices=voices, ts=tsl, ks=ksl, tempos=tempos, obj=p)
+        return dict(d=d, voices=voices, ts=tsl, ks=ksl, tempos=tempos, obj=p, spells=sorted(spells))
 
     def flat(x):
         if isinstance(x, S.PartGroup):
@@ -277,8 +279,9 @@ def select_input(sc, kind):
     raise ValueError(kind)
 
 
-def run_config(res, spec, model, sc, cfg, ctx, keep=None):
-    """one export + raw reading + import; returns a short outcome string"""
+def run_config(res, spec, model, sc, cfg, ctx, keep=None, info=None):
+    """one export + raw reading + import; returns a short outcome string; `info` (a dict) collects the pitch
+    spellings chosen by the importer"""
     import mido
     import partitura
     from partitura.io.exportmidi import save_score_midi
@@ -428,6 +431,8 @@ def run_config(res, spec, model, sc, cfg, ctx, keep=None):
         res.fail("import-runs", kind="exception", where=innermost_partitura_frame(e), observed=exc_text(e), detail=detail)
         return outcome + "/import-exception"
     parts = [p for _, ps in items for p in ps]
+    if info is not None:
+        info.setdefault("imported_spellings", set()).update(tuple(x) for p in parts for x in p["spells"])
     for p in parts:
         # the divisions chosen by the importer are free: positions are compared in quarters (x ppq = ticks)
         p["ts"] = [(q * ppq, a, b) for q, a, b in p["ts"]]
@@ -518,9 +523,10 @@ def eval_case(case):
     ctx = case.get("tag", "")
     outs = []
     keep = []
+    info = {} if case.get("spelling") else None
     try:
         for cfg in cfgs:
-            o = run_config(res, spec, model, sc, cfg, ctx, keep if cfg is cfgs[0] else None)
+            o = run_config(res, spec, model, sc, cfg, ctx, keep if cfg is cfgs[0] else None, info)
             if not o.startswith("skipped"):
                 res.states += 1
                 res.traces += 1
@@ -537,6 +543,12 @@ def eval_case(case):
     bad = sorted(set(o for o in outs if o != "ok"))
     res.outcome = "notes=%d parts=%d lcm=%d pickup=%d %s" % (
         min(nnotes, 9), len(model.parts), model.L, int(model.has_pickup()), ",".join(bad) if bad else "ok")
+    if info is not None:
+        # sub-space spelling: does a written / an imported spelling leave the octave of its step (B sharp, C flat)?
+        written = set((o["step"], o.get("alter") or 0) for _, ps in M.flat_parts(spec) for o in ps["objs"] if o["k"] == "note")
+        res.outcome += " written-crossing=%d imported-crossing=%d" % (
+            int(any(M.crosses_octave(*x) for x in written)),
+            int(any(M.crosses_octave(*x) for x in info.get("imported_spellings", ()))))
     res.nontrivial = nnotes > 0 and any(not o.startswith("skipped") and not o.startswith("export") for o in outs)
     return res
 
@@ -638,6 +650,11 @@ def cfg_tempoparts(i, model):
             for j, pol in enumerate(M.POLICIES)]
 
 
+def cfg_spelling(i, model):
+    return [(i % 6, M.POLICIES[i % 3], 0, 64, "path", "score"),
+            ((i + 3) % 6, "shift", 7, 100, "none", "score")]
+
+
 def gen_options():
     for name, spec in M.option_scores():
         model = M.Model(spec)
@@ -720,6 +737,23 @@ def spaces(tier, seed):
                     "beat of measure 3 (and measure 4) x {chain tied at every barline, one untied note}, a touching note of "
                     "the same pitch after it, second voice on every downbeat; %s; 2 of the 18 (mode, policy) combinations "
                     "per score, cycled" % lt_bounds))
+    if quick:
+        spg = lambda: M.gen_spelling()
+        sp_bounds = "tonic octaves (2, 4), scales major and harmonic minor, enharmonic sets at MIDI 60..71"
+    else:
+        spg = lambda: M.gen_spelling(tonic_octaves=(1, 2, 3, 4, 5, 6), scales=tuple(sorted(M.SCALES)),
+                                     registers=tuple(range(0, 11)))
+        sp_bounds = ("tonic octaves 1..6, scales %s, enharmonic sets at every MIDI pitch 0..127" % (sorted(M.SCALES),))
+    sp.append(Space("spelling", lambda: with_configs(spg(), cfg_spelling), True,
+                    "written pitch spellings, one voice, 4/4, divisions 2, one note at a time: (a) every step C..B x "
+                    "alter %s in every octave -1..9 with MIDI pitch in 0..127 (ascending quarters, every second one as "
+                    "two tied eighths); (b) for every pitch class all its spellings with alter -2..2 of one MIDI pitch, "
+                    "touching; (c) a 23-note passage (scale up and down, triad arpeggio, leading note - tonic) in every key "
+                    "signature -7..7 x scale x tonic octave, written as scale degrees with the key signature (B sharp, "
+                    "C flat, E sharp, F flat, double accidentals where the key has them) and again as the same MIDI pitches "
+                    "written with naturals and sharps only (the importer's pitch spelling alone decides the re-imported "
+                    "spellings); %s; 2 configurations per score (modes, policies cycled; path / returned MidiFile)"
+                    % (list(M.SPELL_ALTERS), sp_bounds)))
     sp.append(Space("options", gen_options, True,
                     "3 scores x output {path, returned MidiFile, file object} x input {Score, list, single Part/PartGroup} x "
                     "velocity {default,1,64,100,127} x minimum_ppq {0,1,L,L+1,2L,2L+1,7,480,960}; modes and shift/pad_bar cycled; "
